@@ -203,7 +203,7 @@ def main():
                                        how='tools/seed_eval.py: scratch worktree of /repo HEAD, git apply, baseline.py (594 pinned tests), demo compiled and run against both trees'),
                         checks_run={c: dict(exit=x['exit'], violation_keys=x['keys'][:4]) for c, x in r['checks'].items()},
                         caught_by=r.get('caught_by'))
-            for k in ('history', 'note'):
+            for k in ('history', 'note', 'first_evaluation_caught_by'):
                 if k in old_meta:
                     meta[k] = old_meta[k]
             json.dump(meta, open(os.path.join(out, 'meta.json'), 'w'), indent=1)
